@@ -18,12 +18,17 @@ THEOREMS = [
     "Mpir.Powm.n_pow_ui_spec",
     "Mpir.Powm.powm_ui_spec",
     "Mpir.Powm.powmSpec_char",
+    "Mpir.Powm.pow_1_spec",
 ]
-TRUSTED = ["hand-written models lean/Mpir/Model/Powm.lean (tied by correspondence on every run): mpz_powm follows mpz/powm.c "
-           "statement by statement with the result kept as limb vector + size; mpn_powm/powlo/pow_1/n_pow_ui/powm_ui follow the C "
-           "control flow at value level; redc_1/redc_2 are limb-level loops over the kernel models"]
-ASSUMPTIONS = ["mpn_tdiv_qr, mpn_mul/sqr/mullow_n, mpz_invert (gcdext) are replaced by their mathematical meaning (%, *, modular inverse) in the C08 models",
-               "redc_n, binvert: value-level models (unique result), correspondence only"]
+TRUSTED = ["hand-written models lean/Mpir/Model/Powm.lean, tied to the C by differential execution on every run (not by translation): "
+           "mpz_powm follows mpz/powm.c statement by statement with the result kept as limb vector + size (MPN_NORMALIZE is the C loop); "
+           "win_size/getbits/getbit/modlimb_invert/count_*_zeros are modelled exactly; redc_1/redc_2 are limb-level loops over the kernel "
+           "models addmul_1/add_n/sub_n; mpn_powm/powlo/pow_1/n_pow_ui/powm_ui follow the C control flow at value level",
+           "kernel models add/sub/rshift/addmul_1 (lean/Mpir/Model/Kernels.lean, C03/C01 correspondence)"]
+ASSUMPTIONS = ["in the models mpn_tdiv_qr, mpn_mul/sqr/mullow_n/mul_basecase and mpz_invert (mpz_gcdext) are replaced by their mathematical "
+               "meaning (% , *, modular inverse in [0,m)); their own correctness is C01/C02/C07",
+               "redc_n, mpn_binvert, redc_2: model results are tied by correspondence; theorems cover redc_n and binvert at value level, redc_2 has no theorem",
+               "theorem hypotheses: operands in normal form; modulus below 2^58 limbs (SIZ is a 32-bit int); for pow_ui with |b| >= 2, e < 2^58 (result addressable)"]
 RULE = ("moduli: odd, 2^k*odd for k=1..63,64,65,128, 2^k, +-1, +-2, square factors, B^k+small, sizes +-2 around the REDC/Karatsuba "
         "thresholds read from the built tree; bases 0,+-1,m-1,-(m-1),>m, negative shorter than m with m-|b| small, multiples of the odd "
         "part / of the radical, even bases with 1,2,3+ low zero bits, non-invertible with negative e; exponents 0,1,2, every bit "
